@@ -46,7 +46,7 @@ CHECKS = {
         "c04_duplicate_ids_refuted), c04_mapping_buffer_files_independent (the buffer-file path run_mapping uses: unconditionally), c04_final_is_query_order, "
         "c04_seeds_fixed_at_dispatch and c04_seed_of_worker_schedule_independent (the seed of chunk i is the i-th draw of the parent stream whatever the schedule and worker "
         "count), c04_same_chunks_same_result (worker counts inducing the same effective chunk size give the same mapping), c04_stats_merge_order_fixed (for a non-associative add), "
-        "c04_marker_merge_sorted, c04_selection_keyed_by_parent. Tie: the real stages (run_mapping, run_type_assignment_on_h5ad, statistics, markers, p-value mask, selection) under "
+        "c04_marker_merge_sorted, c04_selection_keyed_by_parent, c04_selection_result_order_independent / _keys / _total (the returned lookup lists the parents in parent_list order whatever the completion order: finding F19c04, repaired in /repo 9a355c6). Tie: the real stages (run_mapping, run_type_assignment_on_h5ad, statistics, markers, p-value mask, selection) under "
         "every completion order of 3 (quick) / 4 (thorough) workers forced by harness-side delays, worker-count sweeps 1..6, and fresh interpreters under several PYTHONHASHSEED "
         "values; outputs compared bitwise; observed chunks, completion order and per-worker seeds compared with the model.",
    note="Partial by nature: real scheduling, Manager proxies and the absence of other nondeterminism (shared state, set/dict order) are established only by the bitwise runs. "
@@ -129,8 +129,8 @@ CHECKS = {
    text="Theorems over a model of _run_mapping's data flow (reduce -> election on the reduced tree -> directly_assigned -> backfill with the stored tree), generic in marker cache "
         "and vote: c17_drop_equals_reduced (records at all other levels equal those of the run on drop_level t L; at L the parent of the finer assignment, flagged inferred, "
         "no runner-up fields), c17_flatten_equals_one_level, c17_drop_absent_level_noop, c17_backfilled_path (the completed cell is a flagged root-to-leaf path of the stored "
-        "tree), c17_no_key_error, c17_total. Tie: real drop_level / flatten / backfill_assignments on every tree shape up to 4 levels x every droppable level / flatten / absent "
-        "level vs the model; oracle election on the really reduced tree; paired real run_mapping runs compared bitwise and replayed through the model.",
+        "tree), c17_no_key_error, c17_total, c17_reduced_tree_parents (ancestors in the reduced tree = stored ancestors without the dropped level). Tie: real drop_level / flatten / backfill_assignments on every tree shape up to 4 levels x every droppable level / flatten / absent "
+        "level vs the model; every query (parents, children, as_leaves, leaves_to_compare) of the really reduced TaxonomyTree vs the model's reduced tree; oracle election on the really reduced tree; paired real run_mapping runs compared bitwise and replayed through the model.",
    note="Vote, marker reconciliation, chunking and re-ordering are abstract or outside RunMapping.v (C02/C08/C01/C04); tree_ok adds 'no childless internal node' to the "
         "validator's guarantees (F3).",
    technique=TECH, ref="DESIGN.md section 7 C17"),
@@ -140,9 +140,9 @@ CHECKS = {
         "content of scratch/output directories that avoids the fresh names), c19_concurrent_noninterference (every interleaving of two compatible accepted runs is accepted "
         "and each ends as in its solo run). Tie: the four real stages run under strace -f in child interpreters; parsed traces decided by the extracted acceptor, the model's "
         "final file system compared with the observed listing; digests, listings and results compared with an undisturbed run; histories: success after success / failure / "
-        "injected worker failure, stale files under every temporary-name pattern, obsm_key, concurrent pairs replayed as one interleaving.",
+        "injected worker failure, stale files under every temporary-name pattern, obsm_key, concurrent pairs replayed as one interleaving, direct calls of the type-assignment stage with a shared results_output_path (stale buffers under every plausible name), runs without a scratch directory (system temp and working directory observed).",
    note="Partial by nature: the theorems speak about accepted traces; that real runs produce accepted traces is established only for the runs traced. tempfile uniqueness, CPython "
-        "destructor timing, HDF5's O_RDWR probe and stat-like probes are outside the model. Known findings F9 (result_buffer_* left after a failed mapping), F9b (log appended).",
+        "destructor timing, HDF5's O_RDWR probe and stat-like probes are outside the model. F9 / F9c / F9d (result buffer and query-marker file left behind by failed runs or runs without a scratch dir) were repaired in /repo (70038ee); F9b (log appended to an earlier log) stays a known finding.",
    technique="Coq proof of hand-written Gallina acceptor model + correspondence check (strace'd traces of the real stages decided by the extracted acceptor)", ref="DESIGN.md section 7 C19"),
  'C06': dict(
    text="Theorems: c06_factor_one_subset_is_everything (with bootstrap factor 1 every acceptable draw, sorted as tally_votes sorts it, is the whole marker "
@@ -160,18 +160,18 @@ CHECKS = {
    text="Theorems (for every tree, marker table, query/reference gene lists, min_markers): c08_used_equals_spec (genes used for a parent with >= 2 children "
         "= own list intersected with the query if large enough, else the minimal union with the nearest ancestors / root, computed from the ORIGINAL table: "
         "ancestors are unpatched when consulted), c08_fallback_minimal, c08_fallback_bounds, c08_reported_equals_used, c08_pairing_by_name, "
-        "c08_pairing_columns, c08_used_in_query_and_reference, c08_single_child_needs_none (+ _refuted witness = finding F7), c08_errors_root, "
+        "c08_pairing_columns, c08_used_in_query_and_reference, c08_single_child_needs_none, c08_unneeded_entry_never_fails / c08_single_child_entry_never_fails / c08_not_a_parent_needs_none / c08_no_overlap_only_for_needed (finding F7, repaired in /repo 05db7b2: an entry that needs no markers never makes cache creation fail), c08_errors_root, "
         "c08_errors_unknown_to_reference, c08_errors_unknown_marker, c08_accepted_demands_nothing, c08_errors_no_shared_marker, c08_flatten_unions, c08_flatten_tree. Tie: validate_marker_lookup + "
         "create_marker_cache_from_specified_markers + serialize_markers on generated (tree, table, gene orders, min_markers 0..6), HDF5 cache re-read, "
         "error kinds through an enum, vs the extracted model.",
-   note="Names contain no '/'; 'metadata'/'log' keys of the table ignored; F7 is a known finding (entry of a parent that needs no markers aborts cache creation).",
+   note="Names contain no '/'; 'metadata'/'log' keys of the table ignored; F7 (entry of a parent that needs no markers aborted cache creation) was repaired in /repo (05db7b2); the model follows the repaired code.",
    technique=TECH, ref="DESIGN.md section 7 C08"),
  'C14': dict(
    text="Theorems: c14_pool_raises (the dispatch/drain loop with either exit-code inspector, for every world of exit codes and termination times, bound n >= 1 and worker count: "
         "never hangs; Ok implies every code is 0; some non-zero code implies a raise naming a dispatched worker and its code), c14_no_unchecked_pop, c14_single_failure_reported, "
         "c14_abnormal_codes, c14_mapping_effects / c14_failed_run_effects / c14_any_inner_failure / c14_failed_trace_has_property (a failing assignment gives run_mapping's failed-run "
         "effect trace for all 256 configurations: re-raise, log with traceback written, JSON/HDF5 with config/log/metadata only, no results, no CSV, no success message), "
-        "c14_no_complete_output (none of the six stage descriptions reaches its completing effect after a failing worker), c14_selection_scheduler_partial. Tie: the real loops run "
+        "c14_no_complete_output (none of the six stage descriptions reaches its completing effect after a failing worker), c14_result_buffer_removed_on_every_path / c14_result_buffer_cleaned (after the repair of F9 in /repo 70038ee), c14_selection_scheduler_partial. Tie: the real loops run "
         "against stand-in processes following the model's world (virtual schedules) and exhaustive fault injection with forked workers — 3 failure modes (SIGKILL, os._exit(3), raise) x "
         "3 crash points x every worker on all six stages (+ the nested transposition) — observing exception, exit codes, listings after all descendants exit, JSON/HDF5 keys, log text "
         "and whether the next stage accepts what is left.",
@@ -195,15 +195,15 @@ CHECKS = {
         "stages chained (statistics -> reference markers -> query markers -> mapping) on generated separable references, centroid queries in shuffled gene "
         "order, factors {0.25,0.5,0.9,1}, proviso evaluated from the recorded subsets.",
    note="Partial: the full statement is refuted by the faithful model for flat subsets (F6, known finding, documented convention of distance_utils); "
-        "F12 (taxonomy with fewer than two leaves: find_markers raises UnboundLocalError) known.",
+        "F12 (taxonomy with fewer than two leaves: find_markers raises UnboundLocalError) known; name styles (unpadded numbers, case-only differences, spaces) and empty leaves / branches are generated.",
    technique=TECH, ref="DESIGN.md section 7 C18"),
  'C20': dict(
    text="Theorems: c20_sinks_sanitised (under cloud_safe every string reaching config/log/log-file sinks is an image of sanitize), c20_word_sound_partial "
         "(every blank-delimited word whose quote-stripped form is or lies below an existing path is replaced by text without a rooted existing path), "
         "c20_replacement_text, c20_exposed_iff, c20_unexposed_text_unchanged; refutations of the full statement with witnesses replayed on the code: "
-        "c20_no_abs_path_refuted / c20_glued_prefixes_refuted (F10), c20_top_level_entry_refuted (F14), c20_sibling_of_package_raises (F13). Tie: "
-        "sanitize_paths on generated strings over a real generated directory tree vs the extracted model, plus a substring scan of the output for existing absolute paths.",
-   note="Partial: the no-substring statement is refuted (F10, F13, F14 known findings); third-party message contents are not modelled; names without white space.",
+        "c20_no_abs_path_refuted / c20_glued_prefixes_refuted (F10), c20_top_level_entry_refuted (F14), c20_sibling_of_package_raises (F13), c20_cross_word_replacement_refuted (F18). Tie: "
+        "sanitize_paths on generated strings over a real generated directory tree vs the extracted model, plus a substring scan of the output for existing absolute paths; run level: real cloud-safe run_mapping runs (success, five kinds of invalid input, injected worker failures; log_path and tmp_dir None / set) whose config and log in JSON, HDF5 and the log file are scanned and compared with run_sinks applied to the captured raw log.",
+   note="Partial: the no-substring statement is refuted (F10, F13, F14, F18 known findings); third-party message contents are not modelled; names without white space.",
    technique=TECH, ref="DESIGN.md section 7 C20"),
  'C16': dict(
    text="Theorems (Coq, for all inputs): the integer type chosen contains the rounded bounds and is the first candidate that does; "
@@ -248,7 +248,7 @@ m = {
               'serves_properties': [c['property_id'] for c in checks],
               'kind_free_text': 'Coq 8.16.1 development (Model/Proofs/Props), extracted to OCaml, differential harness in Python against /repo/src'}],
  'checks': checks,
- 'notes': 'fix: commits in /repo: 96b10f0 (F11), df833cb (F1), 2b803dd (F2 family), ce0265d (F3), e33b45d (F8), 90f7980 (F17). Known findings: /verif/known_findings.json.',
+ 'notes': 'fix: commits in /repo: 96b10f0 (F11), df833cb (F1), 2b803dd (F2 family), ce0265d (F3), e33b45d (F8), 90f7980 (F17), 70038ee (F9 F9c F9d), 05db7b2 (F7), 9a355c6 (F19c04). Known findings: /verif/known_findings.json.',
  'not_applicable': na,
 }
 (ROOT / 'MANIFEST.json').write_text(json.dumps(m, indent=1) + '\n')
